@@ -271,6 +271,11 @@ macro "lm_auto" : tactic => `(tactic| repeat (any_goals lm_step))
 
 namespace Replays
 
+theorem drainAround (a b c : Nat) : Replays (LB.drainAround a b c) := by
+  unfold LB.drainAround; lm_auto
+
+macro_rules | `(tactic| lm_extra) => `(tactic| with_reducible apply Replays.drainAround)
+
 theorem indentInserts (S : Segmenter) (U : UData) (index amount fuel off : Nat) :
     Replays (LB.indentInserts S U index amount fuel off) := by
   induction fuel generalizing off with
